@@ -72,6 +72,10 @@ SELECT_ALPHA = [
     # SQL Server only
     ("top", ["top", 5]),
     ("limit", ["fetch_next", 4]),
+    # the same call a second time (equal arguments; one shared object in shared mode): items and conjuncts accumulate
+    ("select", ["select", [f("t", "a")]]),
+    ("where", ["where", ["cmp", ">", f("t", "a"), raw(1)]]),
+    ("having", ["having", ["cmp", ">", ["agg", "COUNT", f("t", "id")], raw(0)]]),
     # a negative constant right of a minus (two signs must not fuse into a comment opener that swallows the rest)
     ("select", ["select", [["as", ["arith", "*", ["arith", "-", f("t", "a"), raw(-1)], raw(2)], "d"]]]),
     ("where", ["where", ["cmp", ">", ["arith", "-", f("t", "b"), raw(-2.5)], raw(0)]]),
@@ -407,6 +411,27 @@ def check_presence(sql, lexd, kind, d, calls):
                 posn.append(idx[0] if idx else -1)
             if -1 not in posn and posn != sorted(posn):
                 return "item-order:%s" % word
+    # every select() call contributes its items: the select list has as many items as were selected (a column may be selected twice)
+    sel_calls = [c for f_, c in calls if f_ == "select" and c[0] == "select"]
+    if kind == "select" and sel_calls and "star" not in json.dumps(sel_calls):
+        n_want = sum(len(c[1]) for c in sel_calls)
+        start = _top_word(toks, "SELECT")
+        if start is not None:
+            depth, n_got, seen_item = 0, 0, False
+            for t in toks[start + 1:]:
+                if t.kind == "OP" and t.text in ("(", "["):
+                    depth += 1
+                elif t.kind == "OP" and t.text in (")", "]"):
+                    depth -= 1
+                elif depth == 0 and t.kind == "WORD" and t.value == "FROM":
+                    break
+                elif depth == 0 and t.kind == "OP" and t.text == ",":
+                    n_got += 1
+                    continue
+                seen_item = True
+            n_got += 1 if seen_item else 0
+            if n_got != n_want:
+                return "item-count:SELECT"
     # conjuncts in call order: each criterion call carries its own numeric literal
     for fam in ("where", "prewhere", "having"):
         marks = []
@@ -426,7 +451,7 @@ def check_presence(sql, lexd, kind, d, calls):
     return None
 
 
-def check_setop_tail(sql, lexd):
+def check_setop_tail(sql, lexd, d=None):
     """after the last set operator at depth 0: ORDER BY at most once, before the row-limiting clause, brackets balanced"""
     try:
         toks = lex(sql, lexd)
@@ -453,6 +478,11 @@ def check_setop_tail(sql, lexd):
     for w in ("LIMIT", "OFFSET", "FETCH"):
         if tail.count(w) > 1:
             return "clause-repeated:%s" % w
+    # the row-limiting clause of a set operation is the dialect's own, like that of a plain query
+    if d in ("mssql", "oracle") and "LIMIT" in tail:
+        return "clause-shape:LIMIT-in-%s" % d
+    if d in ("sqlite", "mysql") and "OFFSET" in tail and "LIMIT" not in tail:
+        return "clause-missing:LIMIT"
     return None
 
 
@@ -583,6 +613,34 @@ def run_join_shorthand(case, res):
                 res.violate("C13|join_shorthand|%s|is_joined" % name, "is_joined() does not report the joined item (and only it)", dialect=d, item=item_kind, got=joined)
 
 
+def run_self_join_star(case, res):
+    """one table under two aliases: the star of one alias subsumes the columns of that alias only"""
+    from pypika_tortoise import Table
+
+    d = case["d"]
+    Q = fp.QCLS[d]
+    lexd = "sqlite" if d == "generic" else d
+    res.nontrivial = 1
+    res.states.append(h64(json.dumps([d, "self_join_star"])))
+    for first_star in (False, True):
+        e, b = Table("emp").as_("e"), Table("emp").as_("b")
+        q = Q.from_(e).join(b).on(e.boss == b.id)
+        q = q.select(e.star).select(b.name, e.id) if first_star else q.select(b.name, e.id).select(e.star)
+        try:
+            sql = prog.render(q, d)[0]
+            toks = lex(sql, lexd)
+        except Exception as ex:
+            res.violate("C13|self_join_star|raises|%s" % type(ex).__name__, "a self-join with a table star raised / does not lex", dialect=d)
+            continue
+        res.transitions += 1
+        res.outcomes.append(h64(sql))
+        ids = [t.value for t in toks if t.kind == "ID"]
+        star_e = any(toks[i].kind == "ID" and toks[i].value == "e" and i + 2 < len(toks) and toks[i + 2].text == "*" for i in range(len(toks)))
+        if "name" not in ids or not star_e:
+            res.violate("C13|self_join_star|item-missing", "a column of the other alias (or the star) is missing from the select list", dialect=d, sql=sql,
+                        star_first=first_star)
+
+
 _ENTRY_FREE_RECORD = None
 
 
@@ -593,6 +651,8 @@ def run_case(case):
         return res
     if case["kind"] == "join_shorthand":
         run_join_shorthand(case, res)
+        if case["stmt"] == "inner_join":
+            run_self_join_star(case, res)
         return res
     d, kind, comb = case["d"], case["kind"], case["comb"]
     lexd = "sqlite" if d == "generic" else d
@@ -695,6 +755,14 @@ def run_case(case):
         outs.setdefault(key, order)
     res.nontrivial = 1 if n_ext > 1 else 0
     res.outcomes.extend(h64(s) for s in outs)
+    if comb and kind != "setop":
+        # the canonical order once more with equal arguments being one shared object
+        sd = prog.shared_objects_diff({"calls": [entry] + pre + [alpha[i][1] for i in comb]}, d)
+        res.transitions += 6
+        if sd is not None:
+            res.violate("C13|%s|shared-objects|%s" % (kind, "+".join(sorted(set(fams)))), "the statement changes when equal arguments of its calls are "
+                        "one shared object", dialect=d, calls=[alpha[i][1] for i in comb], **sd)
+            return res
     # the same orders again, now continued from shared prefix objects (every partial statement is built once and all
     # orders that start with it continue from that one object): the result must be the statement built from scratch
     if len(outs) == 1 and not next(iter(outs)).startswith("!") and n_ext > 1:
@@ -742,7 +810,7 @@ def run_case(case):
     complete = {"select": "select" in fams, "insert": "values" in fams, "insert_select": "select" in fams,
                 "update": "set" in fams, "delete": True, "setop": True}[kind]
     if kind == "setop":
-        sym = check_setop_tail(sql, lexd)
+        sym = check_setop_tail(sql, lexd, d)
         if sym:
             res.violate("C13|setop|%s|%s" % (sym, d), "set operation is not well-formed: %s" % sym, dialect=d, calls=[alpha[i][1] for i in comb], sql=sql)
         return res
